@@ -42,6 +42,9 @@ class Searches:
             # An Anchored (or freshly written) Boolean is an int subclass
             # which prints as 1 or 0; it is still a Boolean.
             haystack = bool(haystack)
+        if isinstance(needle, ScalarBoolean):
+            # The keyword searches compare nodes with nodes
+            needle = bool(needle)
         typed_haystack = Nodes.typed_value(haystack)
         typed_needle = Nodes.typed_value(needle)
         needle_type = type(typed_needle)
